@@ -239,6 +239,16 @@ def bidirectional_accumulates(O):
             R.fail(O, p, "a name set is emptied while the tests are being scanned")
             continue
         n += 1
+        # the signal list is not touched while the headers are being scanned: every store through a reference (a pin's kind
+        # changed in place) comes after the last header was parsed - a pin promoted half-way would no longer be found as the
+        # Input it is when a later test reads it back too
+        hp = p.calls(r"HeaderParser::")
+        if hp:
+            last_hp = max(p.trace.index(e) for e in hp)
+            early = [w for w in p.state.extra.get("writes", []) if w[2] <= last_hp and w[3] == 1]
+            if early:
+                R.fail(O, p, "File::parse changes a signal (%s) before all test headers were scanned" % early[0][1])
+                continue
         # no HashSet is created after the first insert (per-test sets would be)
         if news and ins:
             first_ins = p.trace.index(ins[0])
